@@ -81,7 +81,9 @@ func (r *REPL) Run(line string) error {
 	}
 	// need +"\n" because "single" expects \n terminated input
 	toCompile := r.previous + string(line)
-	if toCompile == "" {
+	// Nothing but white space and nothing pending: same as the empty line.
+	// (Compiling it reports "unexpected EOF", which is not a request for more input.)
+	if strings.TrimSpace(toCompile) == "" {
 		return nil
 	}
 	code, err := py.Compile(toCompile+"\n", r.prog, py.SingleMode, 0, true)
